@@ -19,7 +19,7 @@ ASSUMPTIONS = ['ambiguous sets use non-aromatic fragments (an aromatic fragment 
 
 def budget(tier):
     if tier == 'thorough':
-        return dict(examples=2000, shards=16, procs=16)
+        return dict(examples=6000, shards=16, procs=16)
     return dict(examples=700, shards=4, procs=4)
 
 
